@@ -14,11 +14,11 @@ res() { echo "$1"; }
 cd $WT
 # 1. demo on clean tree
 cp $SRC/$DEMO $DEMODIR/zz_seed_demo_test.go
-(cd $DEMODIR && go test -vet=off -count=1 -run "$RUN" . > /tmp/confirm_clean.out 2>&1); CLEAN=$?
+(cd $DEMODIR && go test -vet=off -count=1 ${GOTESTFLAGS:-} -run "$RUN" . > /tmp/confirm_clean.out 2>&1); CLEAN=$?
 # 2. apply patch
 git apply $SRC/patch.diff || { echo "PATCH DOES NOT APPLY"; git -C /repo worktree remove --force $WT; exit 8; }
 go build ./... > /tmp/confirm_build.out 2>&1; BUILD=$?
-(cd $DEMODIR && go test -vet=off -count=1 -run "$RUN" . > /tmp/confirm_mut.out 2>&1); MUT=$?
+(cd $DEMODIR && go test -vet=off -count=1 ${GOTESTFLAGS:-} -run "$RUN" . > /tmp/confirm_mut.out 2>&1); MUT=$?
 rm -f $DEMODIR/zz_seed_demo_test.go
 VERIF_REPO=$WT /verif/baseline_off.sh > /tmp/confirm_base.out 2>&1; BASE=$?
 echo "$ID: demo_clean_exit=$CLEAN build_exit=$BUILD demo_mutant_exit=$MUT baseline_exit=$BASE ($(tail -1 /tmp/confirm_base.out | head -c 100))"
